@@ -88,3 +88,43 @@ def c25(run, tier):
         else:
             run.traces += 1
         if nontrivial and op == "subst": run.sample({"term": show(rec["t"]), "op": op, "params": [show(p) for p in it["params"]], "result": show(o["r"])}, cap=6)
+
+@prop("C18")
+def c18(run, tier):
+    run.rule = ("TLC takes every term of CouldMatchMC.tla's universe (295 types: clause heads with bound variables, goals with general / integer / float "
+                "unknowns in two universes, placeholders, references, raw pointers, arrays with constants, fn pointers, tuples, ADTs, aliases, error; "
+                "repeated variables) against every other (87 025 pairs), decides Unifiable (Unify.tla: kinds, occurs check, universes) and checks "
+                "FilterSound on could_match as implemented; the real CouldMatch::could_match is evaluated on every pair and must be true for every "
+                "unifiable pair; the same for pairs of two-element argument lists (impl header vs. trait-reference arguments, 20 736 pairs); "
+                "non-trivial = the pair is unifiable and the two terms differ; distinct = pair")
+    run.assumptions = ["types of depth <= 2; dyn types and fn pointers with binders are not in the universe",
+                       "trusted: TLC, the term builder harness/src/terms.rs, Unifiable of Unify.tla"]
+    cfg = 'SPECIFICATION Spec\nCONSTANTS\n  Mode = "%s"\nINVARIANTS FilterSound ListSound Replay ReplayLists\nCHECK_DEADLOCK FALSE\n'
+    deviations = 0
+    for mode in ("types", "lists"):
+        r = run_tlc_mc(run, "CouldMatchMC", cfg % mode, "C18" + mode, workers=8, timeout=1800)
+        if r is None: return
+        recs = sorted(gc.parse_replay(r), key=lambda x: x["i"])
+        n = len(recs)
+        items, meta = [], []
+        for a in recs:
+            un = set(a["unif"]); af = set(a.get("algfalse", []))
+            for b in recs:
+                if mode == "types": items.append({"op": "could_match", "a": a["t"], "b": b["t"]})
+                else: items.append({"op": "could_match_args", "a": a["t"], "b": b["t"]})
+                meta.append((a, b, b["i"] in un, b["i"] in af))
+        obs = run_items(items, per=4000)
+        for (a, b, unif, algfalse), it, o in zip(meta, items, obs):
+            run.case([a["i"], b["i"], mode], nontrivial=unif and a["i"] != b["i"])
+            if "r" not in o:
+                run.violation({"what": "abort-or-panic", "detail": json.dumps(o)[:100]}, {"item": it, "observed": o}); continue
+            if unif and not o["r"]:
+                sh = (show(a["t"]), show(b["t"])) if mode == "types" else ([show(x) for x in a["t"]], [show(x) for x in b["t"]])
+                run.violation({"what": "could_match rejects a unifiable pair", "mode": mode, "a": str(sh[0])[:60], "b": str(sh[1])[:60]}, {"item": it, "observed": o})
+            elif unif:
+                run.traces += 1
+            if mode == "types" and (not o["r"]) != algfalse: deviations += 1
+            if unif and mode == "types" and a["t"]["k"] == "adt" and a["i"] != b["i"]:
+                run.sample({"head": show(a["t"]), "goal": show(b["t"]), "unifiable": True, "could_match": o["r"]}, cap=5)
+    run.exhaustive = True
+    run.extra["pairs_where_real_filter_differs_from_as_is_model"] = deviations
